@@ -44,14 +44,17 @@ pub struct Mix {
     pub churn_weight: u32,
     pub probes: u32,
     pub mutator_ops: bool,
-    pub fork: bool,
+    pub fork: u32,
+    pub weak_pairs: u32,
+    pub fin_objs: u32,
+    pub hide: u32,
     pub alloc_opts: u32,
     pub nursery_gc: bool,
     pub old_young: u32,
 }
 
 impl Mix {
-    pub const BASIC: Mix = Mix { big: true, sems: true, weak: false, finalizers: false, ephemerons: false, pins: false, region_copy: true, gc_weight: 6, churn_weight: 3, probes: 0, mutator_ops: true, fork: false, alloc_opts: 0, nursery_gc: true, old_young: 2 };
+    pub const BASIC: Mix = Mix { big: true, sems: true, weak: false, finalizers: false, ephemerons: false, pins: false, region_copy: true, gc_weight: 6, churn_weight: 3, probes: 0, mutator_ops: true, fork: 0, weak_pairs: 0, fin_objs: 0, hide: 0, alloc_opts: 0, nursery_gc: true, old_young: 2 };
 }
 
 pub fn op(mix: Mix) -> BoxedStrategy<Op> {
@@ -98,8 +101,17 @@ pub fn op(mix: Mix) -> BoxedStrategy<Op> {
     if mix.old_young > 0 {
         v.push((mix.old_young, (any::<u8>(), any::<u8>(), any::<u8>(), 0u16..600, prop::bool::weighted(0.3)).prop_map(|(m, src, field, extra, via_region)| Op::OldYoung { m, src, field, extra, via_region }).boxed()));
     }
-    if mix.fork {
-        v.push((2, Just(Op::ForkCycle).boxed()));
+    if mix.fork > 0 {
+        v.push((mix.fork, Just(Op::ForkCycle).boxed()));
+    }
+    if mix.weak_pairs > 0 {
+        v.push((mix.weak_pairs, (any::<u8>(), any::<u8>(), 1u8..4, 0u8..4, prop_oneof![5 => Just(0u8), 1 => Just(2u8), 1 => Just(6u8), 1 => Just(1u8)], 0u8..4, prop::bool::weighted(0.2)).prop_map(|(m, root, kind, keep, sem, chain, fin)| Op::WeakPair { m, root, kind, keep, sem, chain, fin }).boxed()));
+    }
+    if mix.fin_objs > 0 {
+        v.push((mix.fin_objs, (any::<u8>(), any::<u8>(), 0u8..6, 1u8..3, prop::bool::weighted(0.75)).prop_map(|(m, root, n, regs, drop)| Op::FinObj { m, root, n, regs, drop }).boxed()));
+    }
+    if mix.hide > 0 {
+        v.push((mix.hide, (any::<u8>(), any::<u8>(), any::<u8>()).prop_map(|(m, src, dst)| Op::Hide { m, src, dst }).boxed()));
     }
     if mix.alloc_opts > 0 {
         v.push((mix.alloc_opts, (any::<u8>(), any::<u8>(), 0u8..8, prop_oneof![4 => Just(0u8), 1 => Just(2u8), 1 => Just(1u8), 1 => Just(6u8)], any::<bool>(), any::<bool>(), any::<bool>()).prop_map(|(m, root, size_class, sem, overcommit, at_safepoint, allow_oom)| Op::AllocOpts { m, root, size_class, sem, overcommit, at_safepoint, allow_oom }).boxed()));
@@ -238,9 +250,15 @@ pub fn c10_case() -> BoxedStrategy<Case> {
 
 /// C12: ConcurrentImmix with the heap sized so that allocation crosses the concurrent trigger.
 pub fn c12_case() -> BoxedStrategy<Case> {
-    let mix = Mix { churn_weight: 8, gc_weight: 1, old_young: 6, big: false, weak: true, ..Mix::BASIC };
-    (any::<u8>(), 1u8..5, 1u8..3, 3000u32..12000, plan_opts("ConcurrentImmix"), prop::collection::vec(op(mix), 30..160))
-        .prop_map(|(v, workers, mutators, heap_kb, opts, ops)| Case { plan: "ConcurrentImmix".into(), variant: variant_for("ConcurrentImmix", v), heap_kb, dyn_heap: None, workers, mutators, opts, copy_spin: 0, focus: "C12".into(), ops })
+    let mix = Mix { churn_weight: 8, gc_weight: 1, old_young: 6, big: false, weak: true, hide: 14, weak_pairs: 2, ..Mix::BASIC };
+    (any::<u8>(), 1u8..5, 1u8..3, 3000u32..12000, plan_opts("ConcurrentImmix"), prop_oneof![1 => Just(0u32), 2 => 20u32..200, 2 => 200u32..2000], prop::collection::vec(op(mix), 30..160))
+        .prop_map(|(v, workers, mutators, heap_kb, mut opts, scan_delay, ops)| {
+            if scan_delay > 0 {
+                // stall scan_object while mutators run: concurrent marking then overlaps with many mutator ops
+                opts.push(("__scan_delay".to_string(), scan_delay.to_string()));
+            }
+            Case { plan: "ConcurrentImmix".into(), variant: variant_for("ConcurrentImmix", v), heap_kb, dyn_heap: None, workers, mutators, opts, copy_spin: 0, focus: "C12".into(), ops }
+        })
         .boxed()
 }
 
